@@ -180,7 +180,15 @@ def run_in_run(spec, out):
         x0v, dv = live.get("x0"), live.get("d")
         if ret is not None and x0v is not None and dv is not None and not out.violations:
             xs = np.array(x0v, dtype=float, copy=True)
-            pt = np.clip(xs + float(ret) * np.asarray(dv, dtype=float), P.lb, P.ub)
+            raw = xs + float(ret) * np.asarray(dv, dtype=float)
+            # the returned step is at most the largest feasible one: x0 + step*d is in the box up to the rounding of that very expression
+            slack = 16 * np.finfo(float).eps * np.maximum(1.0, np.maximum(np.abs(xs), np.abs(raw)))
+            out.count("steps_returned_inside_runs_checked_against_the_box")
+            if np.all(np.isfinite(raw)) and not (np.all(raw >= P.lb - slack) and np.all(raw <= P.ub + slack)):
+                j = int(np.argmax(np.maximum(P.lb - raw, raw - P.ub)))
+                out.violate("step_beyond_max_feasible", f"in a run of {P.spec['family']} n={P.n}: the line search started at {xs.tolist()} along d={np.asarray(dv).tolist()} returned "
+                            f"the step {float(ret)!r}: x0 + step*d has component {j} = {raw[j]!r} outside [{P.lb[j]!r}, {P.ub[j]!r}]", family=P.spec["family"], mode="in_run")
+            pt = np.clip(raw, P.lb, P.ub)
             olde = np.seterr(all="ignore")
             f_s, f_e = float(P.f(xs.copy())), float(P.f(pt.copy()))
             np.seterr(**olde)
